@@ -62,8 +62,11 @@ def build_plans(world):
     model = consulted_of(world)
     plans = [one_plan(world, None, world["init"]), one_plan(world, {}, world["init"])]
     if model and not model["nofile"]:
+        read = world["read"]
         for vs in veto_sets(world, model):
-            plans.append(one_plan(world, {"reject_norm": vs}, world["init"]))
+            # a caller's callback compares the path it is handed with the names it composed itself:
+            # the veto is spelled the way the caller spelled its directories (relative stays relative)
+            plans.append(one_plan(world, {"reject_spelled": [gen.rel(read, p) for p in vs]}, world["init"]))
     return plans
 
 
@@ -117,6 +120,12 @@ def check(world, plans, results):
             elif what == "fopen_r" and r == 0:
                 if p not in accepted:
                     v.fail("cb:order", "plan %d: %s was opened without a preceding accepting callback (%s)" % (k, p, "rejected" if p in seen_cb else "never asked"))
+        # exact path: a relative directory argument must reach the callback as a relative name
+        if read.get("rel"):
+            for pth, a, ok in cb_paths(res, read_idx):
+                if pth.startswith("/") or pth.startswith("$ROOT"):
+                    v.fail("cb:spelling", "plan %d: the caller used relative names but the callback was handed %r" % (k, pth))
+                    break
         # (ii) callback sequence = consulted list cut after the first rejected file
         seq = [norm(p) for p, a, ok in cb_paths(res, read_idx) if tree.is_fileish(norm(p))]
         exp = []
